@@ -107,6 +107,9 @@ func vfBig(path string, sh *vfShape) *big.Int {
 	mag := verifNondetBytes(path, sh.bigLen)
 	if sh.bigLen > 0 {
 		verifAssume(mag[0] != 0)
+		if sh.text {
+			verifAssume(mag[0] < 0x80)
+		}
 	}
 	v := new(big.Int).SetBytes(mag)
 	if sh.bigNeg && sh.bigLen > 0 {
@@ -134,6 +137,9 @@ func vfPopulate(v reflect.Value, sh *vfShape, path string, omit bool) {
 		return
 	case vfDurationT:
 		k := verifNondetUint32(path)
+		if sh.text {
+			verifAssume(k >= 100 && k <= 999)
+		}
 		if omit {
 			if sh.zero {
 				k = 0
@@ -176,6 +182,10 @@ func vfPopulate(v reflect.Value, sh *vfShape, path string, omit bool) {
 			return
 		}
 		x := verifNondetInt32(path)
+		if sh.text {
+			// three-digit numbers: the lexical forms of all int32 are C04's item level
+			verifAssume(x >= 100 && x <= 999)
+		}
 		if omit {
 			if sh.zero {
 				x = 0
@@ -186,6 +196,9 @@ func vfPopulate(v reflect.Value, sh *vfShape, path string, omit bool) {
 		v.SetInt(int64(x))
 	case reflect.Int64:
 		x := verifNondetInt64(path)
+		if sh.text {
+			verifAssume(x >= 100 && x <= 999)
+		}
 		if omit {
 			if sh.zero {
 				x = 0
